@@ -400,6 +400,10 @@ func Corpus(o Options) []Case {
 		// both same-named packages in one signature, in either order
 		add("pair:two deps", "\tM(a dep.T, b dep2.T) (dep2.T, dep.T)\n", "", 0, false, []string{"M"}, nil, "")
 		add("pair:three deps", "\tM(a dep3.T, b dep.T, c dep2.T) (dep2.T, dep3.T, dep.T)\n\tN(x dep3.T) dep3.T\n", "", 0, false, []string{"M", "N"}, nil, "")
+		// a parameter named like the alias the registry will hand out for the second same-named package of the
+		// same method (the first interface of a file to need that alias)
+		add("pair:param named like the generated alias", "\tM(dep0 int, a dep.T, b dep2.T) error\n\tN(a dep2.T, dep0 string, b dep.T) (dep0r dep.T)\n", "", 0, false, []string{"M", "N"}, nil, "")
+		add("pair:param named like the generated alias, three packages", "\tM(a dep.T, dep1 dep2.T, dep0 dep3.T) dep3.T\n", "", 0, false, []string{"M"}, nil, "")
 		add("pair:two deps reversed", "\tM(a dep2.T, b dep.T) (dep.T, dep2.T)\n", "", 0, false, []string{"M"}, nil, "")
 		add("pair:two https", "\tM(a http.Header, b nhttp.X) (nhttp.X, http.Header)\n", "", 0, false, []string{"M"}, nil, "")
 		add("pair:mockp.M with syncp.S and fmtp.F", "\tM(a mockp.M, b syncp.S, c fmtp.F) error\n", "", 0, false, []string{"M"}, nil, "")
